@@ -23,9 +23,37 @@ pub fn opts(sweep: &str, max_stmts: usize) -> SkelOpts {
     }
 }
 
+/// A declaration atom without the `Decl` identifier role (signal declarations) as a bare body.
+fn has_bare_plain_declaration(nodes: &[crate::space::prog::Node]) -> bool {
+    use crate::space::prog::{Body, Node};
+    fn is_decl(n: &Node) -> bool {
+        matches!(n, Node::Atom(a) if a.text.starts_with("signal ") || a.text.starts_with("var "))
+    }
+    fn body(b: &Body) -> bool {
+        match b {
+            Body::Bare(n) => is_decl(n) || has_bare_plain_declaration(std::slice::from_ref(n.as_ref())),
+            Body::Braced(ns) => has_bare_plain_declaration(ns),
+        }
+    }
+    nodes.iter().any(|n| match n {
+        Node::Atom(_) => false,
+        Node::If { then, els, .. } => body(then) || els.as_ref().map(body).unwrap_or(false),
+        Node::While { body: b, .. } | Node::For { body: b, .. } => body(b),
+        Node::Block(ns) => has_bare_plain_declaration(ns),
+    })
+}
+
 pub fn check_program(skel: &[Sk], is_function: bool, prologue: bool, for_form: usize, case: &Value) -> (Vec<Violation>, bool) {
+    check_program_atoms(skel, is_function, prologue, for_form, Vec::new(), case)
+}
+
+pub fn check_program_atoms(skel: &[Sk], is_function: bool, prologue: bool, for_form: usize, atom_choice: Vec<usize>, case: &Value) -> (Vec<Violation>, bool) {
     let fors: usize = skel.iter().map(|s| s.fors()).sum();
-    let def = marker_def_for(skel, is_function, Vec::new(), prologue, vec![for_form; fors]);
+    let def = marker_def_for(skel, is_function, atom_choice, prologue, vec![for_form; fors]);
+    if super::c10::has_bare_declaration(&def.body) || has_bare_plain_declaration(&def.body) {
+        // not grammatical: a declaration as an unbraced body
+        return (Vec::new(), false);
+    }
     let printed = print_def(&def);
     let mut out = Vec::new();
     let machinery = |what: &str, detail: String| Violation {
@@ -127,7 +155,7 @@ pub fn run(run: &Run) {
         "every statement-list skeleton over atom|if|if-else|while|for|block, nesting <= 3, atoms = \
          unique markers, each as function and as template, with a `var x = 0;` prologue and without (x a parameter, so a loop or branch can be the very first statement); sweep `full` (braced, empty and bare \
          bodies, nested blocks) <= {} statements, sweep `deep` (braced non-empty bodies) <= {} \
-         statements; non-trivial = skeleton has at least one branch or loop and lifts",
+         statements; plus every skeleton <= 3 statements with every atom drawn from 6 kinds (assignments, return / assert, two-name declaration, signal / var declaration); non-trivial = skeleton has at least one branch or loop and lifts",
         sweeps[0].1, sweeps[1].1
     ));
     for (name, max) in sweeps {
@@ -167,6 +195,26 @@ pub fn run(run: &Run) {
             }
         });
     }
+    // Atom sweep: every skeleton <= 3 statements with every atom drawn from {x = k, x += k, x--,
+    // return x | assert(x), var a = x, b = a + 1, signal t | var u}: returns in the middle of
+    // branches and loops, declarations anywhere.
+    {
+        use super::cfgcheck::ROUTE_A_KINDS;
+        let skels = enumerate(opts("full", 3));
+        par_each(&skels, |i, skel| {
+            let atoms: usize = skel.iter().map(|s| s.atoms()).sum();
+            for combo in 0..ROUTE_A_KINDS.len().pow(atoms as u32) {
+                let choice: Vec<usize> = (0..atoms).map(|k| ROUTE_A_KINDS[combo / ROUTE_A_KINDS.len().pow(k as u32) % ROUTE_A_KINDS.len()]).collect();
+                for is_function in [true, false] {
+                    let case = json!({"kind": "skeleton-atoms", "index": i, "function": is_function, "atoms": choice});
+                    run.watch(&case);
+                    let (violations, _) = check_program_atoms(skel, is_function, true, 0, choice.clone(), &case);
+                    run.eval(1);
+                    run.violations(violations);
+                }
+            }
+        });
+    }
     // Route B on every skeleton of <= 3 statements.
     let root = crate::infra::work_dir("c12");
     let small = enumerate(opts("full", 3));
@@ -193,6 +241,14 @@ pub fn replay(case: &Value) -> Vec<Violation> {
         };
         let _ = std::fs::remove_dir_all(&root);
         return out;
+    }
+    if case["kind"].as_str() == Some("skeleton-atoms") {
+        let skels = enumerate(opts("full", 3));
+        let choice: Vec<usize> = case["atoms"].as_array().map(|a| a.iter().map(|v| v.as_u64().unwrap_or(0) as usize).collect()).unwrap_or_default();
+        return match skels.get(case["index"].as_u64().unwrap_or(0) as usize) {
+            Some(skel) => check_program_atoms(skel, case["function"].as_bool().unwrap_or(true), true, 0, choice, case).0,
+            None => Vec::new(),
+        };
     }
     let max = case["max_stmts"].as_u64().unwrap_or(6) as usize;
     let index = case["index"].as_u64().unwrap_or(0) as usize;
